@@ -264,6 +264,81 @@ theorem k4_of {tr : Trace} {endT : Int} (h : K4 Cfg.paper tr endT = true) {e : D
   obtain ⟨sd, hsd, ⟨⟨⟨⟨h5, h6⟩, h7⟩, h8⟩, h9⟩⟩ := h3
   exact ⟨sd, hsd, h5, h6, h7, h8, h9⟩
 
+/-! ### K3b -/
+
+theorem asksWithout_of {ty : Nat} {s : Svc} {items : List Item} (h : asksWithout ty s items = true) :
+    ∃ known, Item.query ty known false ∈ items ∧ known.contains s = false := by
+  simp only [asksWithout, List.any_eq_true] at h
+  obtain ⟨it, hit, hq⟩ := h
+  cases it with
+  | ptr _ _ _ => simp at hq
+  | query ty' known qu =>
+    simp only [Bool.and_eq_true, beq_iff_eq, Bool.not_eq_true'] at hq
+    obtain ⟨⟨rfl, rfl⟩, hk⟩ := hq
+    exact ⟨known, hit, hk⟩
+
+/-- a refresh opportunity yields a multicast QM question for the type that does not list `s`, sent in `[a - 100, b]` -/
+theorem refreshOpp_query {tr : Trace} {endT : Int} (h7 : K7 Cfg.paper tr endT = true) {h ty : Nat} {s : Svc} {a b : Int}
+    (ho : refreshOpp tr h ty s a b = true) :
+    ∃ sq ∈ sends tr, sq.dst = none ∧ a - 100 ≤ sq.t ∧ sq.t ≤ b ∧
+      ∃ known, Item.query ty known false ∈ sq.items ∧ known.contains s = false := by
+  simp only [refreshOpp, Bool.or_eq_true, List.any_eq_true, Bool.and_eq_true, beq_iff_eq, dec_true] at ho
+  rcases ho with ⟨sd, hsd, ⟨⟨⟨⟨_, hdst⟩, h1⟩, h2⟩, ha⟩⟩ | ⟨e, he, ⟨⟨⟨⟨_, hmc⟩, h1⟩, h2⟩, ha⟩⟩
+  · exact ⟨sd, hsd, by simpa using hdst, by omega, h2, asksWithout_of ha⟩
+  · obtain ⟨_, sd, hsd, _, _, hitems, h3, h4, h5, _⟩ := k7a_of h7 he
+    rw [hmc] at h5
+    refine ⟨sd, hsd, by simpa using h5, by omega, by omega, ?_⟩
+    rw [hitems]
+    exact asksWithout_of ha
+
+theorem k3b_of {tr : Trace} {endT : Int} (h : K3b Cfg.paper tr endT = true) {tb : Int} {b : Br} (hb : (tb, b) ∈ browses tr)
+    (hopen : neverClosed tr b.host = true) {x : DlvE} (hx : x ∈ dlvs tr) (hxh : x.h = b.host) {s : Svc} {ttl : Nat} {full : Bool}
+    (hp : ptrOf s x.items = some (ttl, full)) (httl : 0 < ttl) (hty : s.ty = b.ty) :
+    k3bAt Cfg.paper tr endT b.host b.ty tb x.t (effTtl Cfg.paper ttl / 1000) s false = true
+    ∧ k3bAt Cfg.paper tr endT b.host b.ty tb x.t (effTtl Cfg.paper ttl / 1000) s true = true := by
+  have h1 := List.all_eq_true.mp h (tb, b) hb
+  simp only [hopen, Bool.not_true, Bool.false_or] at h1
+  have h2 := List.all_eq_true.mp h1 x hx
+  simp only [hxh, beq_self_eq_true, Bool.not_true, Bool.false_or] at h2
+  have h3 := List.all_eq_true.mp h2 s (ptrOf_mem hp)
+  have hpos : pos s x.items = true := pos_iff.mpr ⟨ttl, full, hp, httl⟩
+  simp only [hty, hpos, beq_self_eq_true, Bool.and_true, Bool.not_true, Bool.false_or, hp, Bool.and_eq_true] at h3
+  exact h3
+
+theorem k3bAt_of {tr : Trace} {endT : Int} {h ty : Nat} {tb t e : Int} {s : Svc} {second : Bool}
+    (hk : k3bAt Cfg.paper tr endT h ty tb t e s second = true)
+    (hend : (refreshWindow Cfg.paper t e tb second).2 ≤ endT)
+    (hno : ∀ y ∈ dlvs tr, y.h = h → t < y.t → ptrOf s y.items = none) :
+    refreshOpp tr h ty s (refreshWindow Cfg.paper t e tb second).1 (refreshWindow Cfg.paper t e tb second).2 = true := by
+  unfold k3bAt at hk
+  rw [Bool.or_eq_true] at hk
+  rcases hk with hk | hk
+  · exfalso
+    simp only [Bool.not_eq_true', Bool.and_eq_false_iff, dec_false] at hk
+    rcases hk with hk | hk
+    · exact hk hend
+    · rw [← Bool.not_eq_true] at hk
+      apply hk
+      unfold noPtrBetween
+      rw [List.all_eq_true]
+      intro y hy
+      by_cases hyh : y.h = h
+      · by_cases hlt : t < y.t
+        · simp [hno y hy hyh hlt]
+        · simp [hlt]
+      · simp [hyh]
+  · exact hk
+
+theorem refreshWindow_early {t e tb : Int} (h : tb ≤ t + 750 * e) (second : Bool) :
+    refreshWindow Cfg.paper t e tb second
+      = (t + (if second then 850 else 750) * e - 10000 - 999, t + (if second then 850 else 750) * e + 25000) := by
+  simp [refreshWindow, h]
+
+theorem refreshWindow_late {t e tb : Int} (h : ¬ tb ≤ t + 750 * e) (second : Bool) :
+    refreshWindow Cfg.paper t e tb second
+      = (tb + 20 + (if second then 14000 else 5000) - 999, tb + 120 + (if second then 14000 else 5000)) := by
+  cases second <;> simp [refreshWindow, h]
+
 /-! ### KF -/
 
 theorem kf_of {tr : Trace} {endT : Int} (h : KF Cfg.paper tr endT = true) {tb : Int} {b : Br} (hb : (tb, b) ∈ browses tr)
